@@ -211,7 +211,21 @@ class C12(BlockBase):
                     for ch in e.children:
                         if isinstance(ch, gen.Line) and ch.text and rng.random() < 0.4:
                             ch.text = rng.choice(["", g.unit, g.unit * 3, " "]) + ch.text.lstrip(" \t")
-            yield self.mk_items(items, gen.Spelling(), rng.random() < 0.8, "ast")
+            # removed elements on the wrapper lines of an unwrapped block: the whole line goes with the tag part, so the
+            # reference is unchanged, but the marker list of the block now starts / ends with absorbed children
+            label = "ast"
+            if i % 3 == 0:
+                sp0 = gen.Spelling()
+                def inl():
+                    ie = gen.El(rng.choice(["rm", "rm", "tl"]), rng.random() < 0.85)
+                    return sp0.open_tag(ie) + rng.choice(["", "x", "é"]) + sp0.close_tag(ie)
+                for e in gen.all_elements(items):
+                    if e.unwrap and e.effective_ready() and rng.random() < 0.6:
+                        label = "ast+wrapper-tags"
+                        e.wrap_open = rng.choice(["{ ", "if (a ", "é "]) + rng.choice([" ", ""]).join(inl() for _ in range(rng.choice([1, 1, 2]))) + rng.choice(["", " y", ") {"])
+                        if rng.random() < 0.3:
+                            e.wrap_close = rng.choice(["} ", ""]) + inl() + rng.choice(["", " é"])
+            yield self.mk_items(items, gen.Spelling(), rng.random() < 0.8, label)
 
     def first_line_unwrap(self, lay):
         """the opening tag of an unwrapped ready element is on line 1, or on line 2 after an empty line 1
